@@ -2,6 +2,7 @@ package main
 
 import (
 	"fmt"
+	"io"
 	gofs "io/fs"
 	"sort"
 	"strings"
@@ -235,10 +236,32 @@ func callHelper(fs hackpadfs.FS, h string, o Op) (obs Obs) {
 	switch h {
 	case "Create":
 		f, err := hackpadfs.Create(fs, o.P)
-		if f != nil {
-			_ = f.Close()
+		if err != nil || f == nil {
+			return res(err)
 		}
-		return res(err)
+		// the result of Create is the handle: what it can do is part of the result (os.Create: read-write, at offset 0,
+		// on an empty file).  Probed on the underlying file, outside the fault accounting.
+		var probe hackpadfs.File = f
+		if ff, ok := f.(faultFile); ok {
+			probe = ff.File
+		}
+		var abil []string
+		step := func(what string, err error) {
+			if err != nil && err != io.EOF {
+				abil = append(abil, what+"="+classOf(err))
+			} else {
+				abil = append(abil, what+"=ok")
+			}
+		}
+		_, werr := hackpadfs.WriteFile(probe, []byte{7, 8})
+		step("write", werr)
+		_, serr := hackpadfs.SeekFile(probe, 0, io.SeekStart)
+		step("seek", serr)
+		buf := make([]byte, 4)
+		n, rerr := probe.Read(buf)
+		step(fmt.Sprintf("read(%v)", buf[:n]), rerr)
+		_ = f.Close()
+		return Obs{Kind: "ok", Name: strings.Join(abil, " ")}
 	case "OpenFile":
 		f, err := hackpadfs.OpenFile(fs, o.P, sysFlag(o.Flag), gofs.FileMode(o.Perm))
 		if f != nil {
@@ -434,6 +457,8 @@ func obsData(o Obs) string {
 		return strings.Join(s, ",")
 	case "bytes":
 		return fmt.Sprint(o.Bytes)
+	case "ok":
+		return "ok " + o.Name // (Create: what the returned handle can do)
 	}
 	return o.Kind
 }
